@@ -10,6 +10,7 @@ import (
 	"testing"
 
 	"github.com/xelaj/mtproto/internal/encoding/tl"
+	"github.com/xelaj/mtproto/internal/mtproto/objects"
 	"github.com/xelaj/mtproto/telegram/verifh/hx"
 	"github.com/xelaj/mtproto/telegram/verifh/tlx"
 	"pgregory.net/rapid"
@@ -285,6 +286,35 @@ func (r rapidSrc) U64() uint64 {
 	return rapid.OneOf(rapid.Uint64Range(0, 63), rapid.Uint64()).Draw(r.t, "d")
 }
 
+// bigPacked: gzip_packed{msgs_state_info{info: n compressible bytes}} through Marshal and DecodeUnknownObject.
+func bigPacked(n int) error {
+	info := bytes.Repeat([]byte("0123456789abcdef"), n/16+1)[:n]
+	in := &objects.GzipPacked{Obj: &objects.MsgsStateInfo{ReqMsgID: 7, Info: info}}
+	err := hx.Safely(func() error {
+		b, err := tl.Marshal(in)
+		if err != nil {
+			return fmt.Errorf("Marshal: %v", err)
+		}
+		obj, err := tl.DecodeUnknownObject(b)
+		if err != nil {
+			return fmt.Errorf("DecodeUnknownObject of the %d bytes Marshal produced: %v", len(b), err)
+		}
+		gz, ok := obj.(*objects.GzipPacked)
+		if !ok {
+			return fmt.Errorf("decoded to %T", obj)
+		}
+		inner, ok := gz.Obj.(*objects.MsgsStateInfo)
+		if !ok || inner.ReqMsgID != 7 || !bytes.Equal(inner.Info, info) {
+			return fmt.Errorf("the packed object decodes to a different value (%T)", gz.Obj)
+		}
+		return nil
+	})
+	if err != nil {
+		return fmt.Errorf("gzip_packed{msgs_state_info with %d bytes}: %v", n, err)
+	}
+	return nil
+}
+
 func TestC01(t *testing.T) {
 	setup()
 	if p := hx.ReplayPath(); p != "" {
@@ -293,6 +323,15 @@ func TestC01(t *testing.T) {
 			t.Fatal(err)
 		}
 		run.Case(true, 1)
+		if strings.HasPrefix(c.Type, "special:big-packed:") {
+			var n int
+			fmt.Sscanf(c.Type, "special:big-packed:%d", &n)
+			if err := bigPacked(n); err != nil {
+				run.Violation(c, err.Error())
+				t.Fatalf("replay fails: %v", err)
+			}
+			return
+		}
 		if err := evaluate(&c, &tlx.Replay{Draws: c.Draws}); err != nil {
 			run.Violation(c, err.Error())
 			t.Fatalf("replay fails: %v", err)
@@ -459,6 +498,21 @@ func TestC01(t *testing.T) {
 			}
 		}
 		run.Exhaustive("presence patterns of all multi-field flag groups (this shard's share)", n)
+	})
+	t.Run("big-packed", func(t *testing.T) {
+		// gzip_packed around an object of just under / just over 2^24 bytes (its one bytes field near the longest
+		// string TL can carry; compressible, so that the packed data stays far below that limit)
+		if run.Shard != 0 {
+			return
+		}
+		for _, n := range []int{1<<24 - 40, 1<<24 - 1} {
+			run.Case(true, evid.Hash("big-packed", n), "feat:gzip_packed-around-2^24-bytes")
+			if err := bigPacked(n); err != nil {
+				p := run.ViolationNamed(fmt.Sprintf("big-packed-%d", n), &Case{Type: fmt.Sprintf("special:big-packed:%d", n)}, err.Error())
+				t.Errorf("violation (replay %s): %v", p, err)
+				return
+			}
+		}
 	})
 	t.Run("wide-vectors", func(t *testing.T) {
 		// very many items: vectors of objects with 999 / 1000 / 1001 / 4097 (thorough: 70000) elements
